@@ -2,6 +2,7 @@
    Property theorems only; proofs live in lib/NegotiateProofs.v. *)
 From Coq Require Import ZArith List String.
 Require Import Verif.lib.PyLite Verif.gen.NegotiateGen Verif.lib.Negotiate Verif.lib.NegotiateProofs Verif.lib.NegSplit Verif.lib.NegSplitProofs.
+Require Import Verif.lib.NegCodec Verif.gen.NegCodecGen Verif.lib.NegCodecProofs Verif.lib.NegWire Verif.lib.NegWireProofs.
 Import ListNotations.
 Local Open Scope Z_scope.
 
@@ -65,3 +66,151 @@ Theorem C13_header_verdict : forall eoh buflen, header_verdict eoh buflen = head
 Proof. exact header_verdict_spec. Qed.
 
 Print Assumptions C13_header_verdict.
+
+(* ===================== round 5 ===================== *)
+
+(* "For ANY two endpoints, exactly one of them acts as decider": never two; none exactly when the two ids are equal *)
+Theorem C13_decider_count : forall a b, masters a b = (if list_eqb (ep_id a) (ep_id b) then 0 else 1)%nat.
+Proof. exact decider_count. Qed.
+Print Assumptions C13_decider_count.
+
+Theorem C13_no_decider_iff_equal_ids : forall a b, masters a b = 0%nat <-> ep_id a = ep_id b.
+Proof. exact no_decider_iff_equal_ids. Qed.
+Print Assumptions C13_no_decider_iff_equal_ids.
+
+(* ... in which case both ends fail (both wait for a decision; the attempt ends by the negotiation timeout) *)
+Theorem C13_equal_ids_both_fail : forall a b, ep_id a = ep_id b -> exists w, negotiate a b = (Failed w, Failed w).
+Proof. exact equal_ids_both_fail. Qed.
+Print Assumptions C13_equal_ids_both_fail.
+
+(* "either both switch ... with identical parameters ... or both abandon the connection with a negotiation error", EXACTLY WHEN:
+   for any two endpoints with distinct ids that implement the versions they offer (asserted by Negotiation.__init__), both get
+   the same parameters (highest common version, highest common table, equal hash) iff the ranges meet and the highest common
+   table has the same hash on both sides; otherwise both fail and each failure is a negotiation error *)
+Theorem C13_agreement_exact : forall a b,
+  ep_id a <> ep_id b -> implements_own_range a -> implements_own_range b ->
+  (compatible a b -> exists p, negotiate a b = (Banana p, Banana p) /\ agreed a b p) /\
+  (~ compatible a b -> exists w1 w2, negotiate a b = (Failed w1, Failed w2) /\ negotiation_error w1 /\ negotiation_error w2).
+Proof. exact agreement_exact. Qed.
+Print Assumptions C13_agreement_exact.
+
+(* "the highest protocol version both support", against a decider that does NOT follow the protocol: the full statement
+     forall s d p, implements_own_range s -> slave_accept s d = Ok p -> in_range (ep_vmin s) (ep_vmax s) (p_version p)
+   is FALSE of the faithful model (and of the code: replayed on every run, reported as a note): the non-decider checks the
+   decided version only against the accept methods its class has *)
+Theorem C13_slave_checks_own_range_refuted :
+  exists s d p, implements_own_range s /\ ~ in_range (ep_vmin s) (ep_vmax s) (d_version d) /\ slave_accept s d = Ok p /\ p_version p = d_version d.
+Proof. exact slave_checks_own_range_refuted. Qed.
+Print Assumptions C13_slave_checks_own_range_refuted.
+
+(* ... whereas a decider that follows the protocol always decides inside the other side's ranges *)
+Theorem C13_honest_decision_in_range : forall m s d,
+  master_decide m s = Ok d -> in_range (ep_vmin s) (ep_vmax s) (d_version d) /\ in_range (ep_vocmin s) (ep_vocmax s) (d_vocab d).
+Proof. exact honest_decision_in_range. Qed.
+Print Assumptions C13_honest_decision_in_range.
+
+(* the message codec, TRANSLATED from Negotiation.sendBlock / parseLines: every block the code can emit (keys lower-case
+   without ':' / CR, values without CR and without leading blanks, valid UTF-8), followed by ANY bytes, is cut by the receiver
+   at its own end -- the first terminator of the stream -- and parses back to exactly the block that was sent *)
+Theorem C13_block_round_trip : forall d rest,
+  d <> [] -> canonical d -> Forall wf_pair d ->
+  exists wire, sendBlock d = Ok wire /\
+    find_term (wire ++ rest) = Some (List.length (header_of d)) /\
+    firstn (List.length (header_of d)) (wire ++ rest) = header_of d /\
+    skipn (List.length (header_of d) + 4) (wire ++ rest) = rest /\
+    parseLines (header_of d) = Ok d.
+Proof. exact block_round_trip. Qed.
+Print Assumptions C13_block_round_trip.
+
+(* composed with the block splitter (bytes -> blocks -> dict), for EVERY packetisation of the stream: the phase handler is given
+   exactly the header of the block, once, and the bytes behind it are left for the next phase *)
+Theorem C13_deliver_any_chunking : forall (ok : list Z -> bool) d rest (cs : list (list Z)),
+  d <> [] -> canonical d -> Forall wf_pair d -> (List.length (header_of d) <= cap)%nat ->
+  List.concat cs = wire_of d ++ rest ->
+  nfeed_all ok (NWait [] 1) cs = if ok (header_of d) then (NPass, [header_of d], rest) else (NDead, [header_of d], []).
+Proof. exact deliver_any_chunking. Qed.
+Print Assumptions C13_deliver_any_chunking.
+
+Theorem C13_deliver_round_trip : forall d rest,
+  d <> [] -> canonical d -> Forall wf_pair d -> (List.length (header_of d) <= cap)%nat -> deliver d rest = Ok (d, rest).
+Proof. exact deliver_round_trip. Qed.
+Print Assumptions C13_deliver_round_trip.
+
+(* "Malformed ... negotiation input": on ARBITRARY bytes the translated parseLines returns a block or raises ValueError /
+   UnicodeDecodeError, nothing else; both are caught by the catch-all of dataReceived *)
+Theorem C13_parse_total : forall header,
+  (exists d, parseLines header = Ok d) \/ parseLines header = Exc "ValueError" \/ parseLines header = Exc "UnicodeDecodeError".
+Proof. exact parse_total. Qed.
+Print Assumptions C13_parse_total.
+
+(* every key the sender stores in a hello / decision / error block is one the receiving methods look up (all read from the source) *)
+Theorem C13_keys_written_are_read :
+  In hello_key_version_range_written hello_keys_read /\
+  In hello_key_vocab_range_written hello_keys_read /\
+  In hello_key_tubid_written hello_keys_read /\
+  In error_key hello_keys_read /\
+  In decision_key_version_written decision_keys_read /\
+  In decision_key_vocab_written decision_keys_read /\
+  In error_key decision_keys_read.
+Proof. exact keys_written_are_read. Qed.
+Print Assumptions C13_keys_written_are_read.
+
+(* "out-of-order negotiation input", by content: a decision where a hello is expected, and a hello where the decision is
+   expected, are refused with the negotiation error *)
+Theorem C13_decision_where_hello_expected : forall hf me m offer ver dec,
+  decide_wire hf m offer ver = Ok dec -> eval_hello_wire me (fst dec) = Exc "NegotiationError".
+Proof. exact decision_where_hello_expected. Qed.
+Print Assumptions C13_decision_where_hello_expected.
+
+Theorem C13_hello_where_decision_expected : forall hf me e, accept_wire hf me (hello_block e) = Exc "NegotiationError".
+Proof. exact hello_where_decision_expected. Qed.
+Print Assumptions C13_hello_where_decision_expected.
+
+(* a refusal reaches the other side as the remote negotiation error in both phases, for every receiver that has the accept method
+   of the version stamped on error blocks -- and every class of this tree has it *)
+Theorem C13_error_block_understood : forall hf me (msg : list Z),
+  let blk := dset (dset [] decision_key_version_written (fmt_d error_block_version)) error_key msg in
+  eval_hello_wire me blk = Exc "RemoteNegotiationError" /\
+  (ep_accepts me error_block_version = true -> accept_wire hf me blk = Exc "RemoteNegotiationError").
+Proof. exact error_block_understood. Qed.
+Print Assumptions C13_error_block_understood.
+
+Theorem C13_error_block_version_has_accept_method : In error_block_version class_accept_versions.
+Proof. exact error_block_version_has_accept_method. Qed.
+Print Assumptions C13_error_block_version_has_accept_method.
+
+(* "Malformed, oversized or out-of-order negotiation input only ever ends that connection attempt": the phase machine whose
+   dispatch, input guard and error report are TRANSLATED from Negotiation.dataReceived.  A header block in ANY legal state,
+   whatever the handler makes of it, (a) is not looked at, or (b) advances along the legal order, or (c) ends the attempt:
+   the object is dead, nothing else changes, and the peer is told in the way that fits the send phase reached *)
+Theorem C13_block_advances_or_ends : forall s v, legal s ->
+  let s' := on_block s v in
+  s' = s \/
+  (ns_dead s' = false /\ ns_recv s <= ns_recv s' /\ ns_send s <= ns_send s' /\ (ns_recv s < ns_recv s' \/ ns_switched s' = true)
+   /\ ns_client s' = ns_client s) \/
+  (ns_dead s' = true /\ ns_switched s' = ns_switched s /\ ns_recv s' = ns_recv s /\ ns_client s' = ns_client s /\
+   ns_send s <= ns_send s' /\ ns_report s' = error_report (ns_send s')).
+Proof. exact block_advances_or_ends. Qed.
+Print Assumptions C13_block_advances_or_ends.
+
+(* every state reached from a fresh client or server object by any sequence of blocks is legal ... *)
+Theorem C13_legal_run : forall c vs, legal (run_blocks (init_state c) vs).
+Proof. intros c vs. apply legal_run. apply legal_init. Qed.
+Print Assumptions C13_legal_run.
+
+(* ... in legal states the `assert 0` arm of the dispatch is never taken ... *)
+Theorem C13_dispatch_total_on_legal : forall s, legal s -> ns_dead s = false -> dispatch (ns_recv s) (ns_client s) <> 4.
+Proof. exact dispatch_total_on_legal. Qed.
+Print Assumptions C13_dispatch_total_on_legal.
+
+(* ... and once the attempt has ended nothing that arrives later changes anything *)
+Theorem C13_ended_stays_ended : forall s vs, ns_dead s = true -> run_blocks s vs = s.
+Proof. exact ended_stays_ended. Qed.
+Print Assumptions C13_ended_stays_ended.
+
+(* every store to receive_phase / send_phase anywhere in the class is one the machine knows *)
+Theorem C13_phase_stores_known :
+  Forall (fun mv => In (snd mv) [ph_ENCRYPTED; ph_DECIDING; ph_ABANDONED]) receive_phase_stores /\
+  Forall (fun mv => In (snd mv) [ph_ENCRYPTED; ph_DECIDING; ph_BANANA]) send_phase_stores.
+Proof. exact phase_stores_known. Qed.
+Print Assumptions C13_phase_stores_known.
